@@ -21,10 +21,10 @@ theorem C01_machine_refines_bigstep (fuel : Nat) (ss rest : List Stmt) (σ σ' :
   (sound D fuel).block ss rest σ σ' h
 
 /-- the same for a single loop: entered with its counter bound, left with its scope closed -/
-theorem C01_loop_refines (fuel : Nat) (var : String) (n : Int64) (body rest : List Stmt) (σ σ' : Sys W)
-    (h : loopIter D fuel var n body σ = some σ') :
-    Steps D (.mk rest (.startInner ⟨var, n, body⟩), σ) (.mk rest .iterate, σ') :=
-  (sound D fuel).loop var n body rest σ σ' h
+theorem C01_loop_refines (fuel : Nat) (var : String) (n cur : Int64) (body rest : List Stmt) (σ σ' : Sys W)
+    (h : loopIter D fuel var n body cur σ = some σ') :
+    Steps D (.mk rest (.startInner ⟨var, n, body, cur⟩), σ) (.mk rest .iterate, σ') :=
+  (sound D fuel).loop var n body cur rest σ σ' h
 
 theorem C01_while_refines (fuel : Nat) (cond : Expr) (body rest : List Stmt) (σ σ' : Sys W)
     (h : whileIter D fuel cond body σ = some σ') :
@@ -56,7 +56,7 @@ theorem C01_loop_nonpositive (fuel : Nat) (var : String) (max : Expr) (body : Li
 theorem C01_loop_entry (fuel : Nat) (var : String) (max : Expr) (body : List Stmt) (σ : Sys W)
     (n : Int64) (c' : Ctx) (he : evalE max σ.ctx = .ok (n, c')) (hn : ¬ n ≤ 0) :
     execStmt D (fuel + 1) (.loop var max body) σ =
-      loopIter D fuel var n body { σ with ctx := c'.pushFrame.set var 0 } := by
+      loopIter D fuel var n body 0 { σ with ctx := c'.pushFrame.set var 0 } := by
   simp [execStmt, he, hn]
 
 /-- **Each row's entries**: `bits(k, e)` evaluates `e` once and expands most-significant-bit first
@@ -118,7 +118,7 @@ theorem C01_scopes_restored (hD : D.KeepsVars) (fuel : Nat) (σ σ' : Sys W) (hi
           | cons b bs => exact ⟨b, bs, rfl⟩
         have htail : (c'.pushFrame.set var 0).scopes.tail = b :: bs := by
           rw [s2, hps]; simp [Scopes.set, hb]
-        obtain ⟨_, s3⟩ := (discipline D hD fuel).loop var n body _ σ' b bs i2 htail h
+        obtain ⟨_, s3⟩ := (discipline D hD fuel).loop var n body 0 _ σ' b bs i2 htail h
         rw [s3, ← hb]; unfold Ctx.scopes; rw [hv]
     · cases h
 
@@ -134,21 +134,6 @@ example : ((execBlock exDev 20 exProg ⟨{ rng := default }, (), []⟩).map
     (fun σ => σ.log.map (fun r => (r.entries, r.line)))) =
     some [([.num 2], 4), ([.num 3], 4), ([.num 2], 9)] := by
   decide
-
-/-- the body leaves the loop's counter alone: run from a (well-formed) state in which the counter has
-just been set to `i`, it ends in a state in which the name still looks up to `i` -/
-def KeepsCounter (D : Device W) (var : String) (body : List Stmt) : Prop :=
-  ∀ fuel (σ σ' : Sys W) (i : Int64), σ.ctx.vars.Inv → Scopes.KeysOK σ.ctx.scopes →
-    execBlock D fuel body { σ with ctx := σ.ctx.set var i } = some σ' → σ'.ctx.get var = some (.val i)
-
-/-- **A sufficient syntactic condition**: a body that never writes `let var = …` at its own level
-(nor inside `while`s at that level — what nested loops bind is gone when they close) keeps the counter. -/
-theorem C01_noAssign_keeps_counter (D : Device W) (hD : D.KeepsVars) (var : String) (body : List Stmt)
-    (hna : Stmts.NoAssign var body) : KeepsCounter D var body := by
-  intro fuel σ σ' i hinv hk h
-  have hi2 : (σ.ctx.set var i).vars.Inv := (scopes_set σ.ctx var i hinv).1
-  have := (lkeep D hD var fuel).block body { σ with ctx := σ.ctx.set var i } σ' hi2 hna h
-  exact get_of_lk _ _ _ (this.trans (lk_set_self σ.ctx var i hinv hk))
 
 /-- the `for` reading of a loop: the body runs with the counter set to `i`, then to `i+1`, … as long
 as the next value is below `n`, then the scope is closed; `k` counts the passes -/
@@ -169,29 +154,23 @@ theorem satSucc_lt (i n : Int64) (h : i < n) : satSucc i = i + 1 := by
     exact absurd h (Int64.not_lt.mpr this)
   · rfl
 
-/-- **The `for` reading**: when the body leaves the counter alone, `loop(v, n)` runs its body once for
-each counter value from the current one up to `n - 1`, in order — each pass starting from the state
-the previous one left, with only the counter advanced — and then closes its scope. -/
-theorem C01_for_loop (D : Device W) (hD : D.KeepsVars) (var : String) (n : Int64) (body : List Stmt)
-    (hk : KeepsCounter D var body) :
-    ∀ (fuel : Nat) (σ σ' : Sys W) (i : Int64), σ.ctx.vars.Inv → Scopes.KeysOK σ.ctx.scopes → i < n →
-      loopIter D fuel var n body { σ with ctx := σ.ctx.set var i } = some σ' → ∃ k, ForRun D var n body k i σ σ'
-  | 0, σ, σ', i, _, _, _, h => by simp [loopIter] at h
-  | fuel+1, σ, σ', i, hinv, hko, hlt, h => by
+/-- **The `for` reading**: `loop(v, n)` runs its body once for each counter value from the current
+one up to `n - 1`, in order — the variable is set to that value before each pass, *whatever the body
+did to it* (the counter is the loop's own) — each pass starting from the state the previous one left,
+and then closes its scope. -/
+theorem C01_for_loop (D : Device W) (var : String) (n : Int64) (body : List Stmt) :
+    ∀ (fuel : Nat) (σ σ' : Sys W) (i : Int64), i < n →
+      loopIter D fuel var n body i { σ with ctx := σ.ctx.set var i } = some σ' → ∃ k, ForRun D var n body k i σ σ'
+  | 0, σ, σ', i, _, h => by simp [loopIter] at h
+  | fuel+1, σ, σ', i, hlt, h => by
     simp only [loopIter] at h
     cases hb : execBlock D fuel body { σ with ctx := σ.ctx.set var i } with
     | none => simp [hb] at h
     | some σ2 =>
-      simp only [hb] at h
-      have hg2 := hk fuel σ σ2 i hinv hko hb
-      simp only [hg2, satSucc_lt i n hlt] at h
-      have hi1 : (σ.ctx.set var i).vars.Inv := (scopes_set σ.ctx var i hinv).1
-      have hk1 : Scopes.KeysOK (σ.ctx.set var i).scopes := keysOK_ctx_set σ.ctx var i hinv hko
-      have hi2 := ((discipline D hD fuel).block body _ σ2 hi1 hb).1
-      have hk2 := (kdisc D hD fuel).block body _ σ2 hi1 hk1 hb
+      simp only [hb, satSucc_lt i n hlt] at h
       by_cases hn : i + 1 < n
       · simp only [hn, if_true] at h
-        obtain ⟨k, hr⟩ := C01_for_loop D hD var n body hk fuel σ2 σ' (i + 1) hi2 hk2 hn h
+        obtain ⟨k, hr⟩ := C01_for_loop D var n body fuel σ2 σ' (i + 1) hn h
         exact ⟨k + 1, .next hb hn hr⟩
       · simp only [hn, if_false, Option.some.injEq] at h
         subst h
@@ -199,20 +178,49 @@ theorem C01_for_loop (D : Device W) (hD : D.KeepsVars) (var : String) (n : Int64
 
 /-- the whole statement: bound evaluated once; nothing when it is `≤ 0`; otherwise a scope is opened
 and the passes run for the counter values `0, 1, …` -/
-theorem C01_loop_is_for (D : Device W) (hD : D.KeepsVars) (fuel : Nat) (var : String) (max : Expr) (body : List Stmt)
-    (σ σ' : Sys W) (n : Int64) (c' : Ctx) (hk : KeepsCounter D var body) (hinv : σ.ctx.vars.Inv)
-    (hko : Scopes.KeysOK σ.ctx.scopes) (he : evalE max σ.ctx = .ok (n, c')) (hn : ¬ n ≤ 0)
+theorem C01_loop_is_for (D : Device W) (fuel : Nat) (var : String) (max : Expr) (body : List Stmt)
+    (σ σ' : Sys W) (n : Int64) (c' : Ctx) (he : evalE max σ.ctx = .ok (n, c')) (hn : ¬ n ≤ 0)
     (h : execStmt D (fuel + 1) (.loop var max body) σ = some σ') :
     ∃ k, ForRun D var n body k 0 { σ with ctx := c'.pushFrame } σ' := by
   rw [C01_loop_entry D fuel var max body σ n c' he hn] at h
-  have hv := (evalE_vars he).1
-  have hinv' : c'.vars.Inv := by rw [hv]; exact hinv
-  exact C01_for_loop D hD var n body hk fuel { σ with ctx := c'.pushFrame } σ' 0 (FMap.inv_push c'.vars hinv')
-    (keysOK_ctx_push c' (keysOK_of_vars_eq hv hko)) (Int64.not_le.mp hn) h
+  exact C01_for_loop D var n body fuel { σ with ctx := c'.pushFrame } σ' 0 (Int64.not_le.mp hn) h
 
-/-- non-vacuity: a body of two rows and a `let` of another name keeps the counter `i` -/
-example (D : Device W) (hD : D.KeepsVars) :
-    KeepsCounter D "i" [.row [.num 1] 3, .letS "a" (.var "i"), .row [.expr (.var "a")] 5] :=
-  C01_noAssign_keeps_counter D hD "i" _ (by simp [Stmts.NoAssign, Stmt.NoAssign])
+/-- the number of passes is the bound: `k` passes starting at counter `i` means `i + k = n` (as integers) -/
+theorem ForRun_count (D : Device W) (var : String) (n : Int64) (body : List Stmt) :
+    ∀ (k : Nat) (i : Int64) (σ σ' : Sys W), i < n → ForRun D var n body k i σ σ' → i.toInt + k = n.toInt := by
+  intro k i σ σ' hlt h
+  induction h with
+  | @last fuel i σ σ2 _ hn =>
+    rename_i hlt'
+    have h1 : i.toInt < n.toInt := Int64.lt_iff_toInt_lt.mp hlt
+    have hmax : n.toInt ≤ Int64.maxValue.toInt := Int64.le_iff_toInt_le.mp (Int64.le_maxValue n)
+    have hmin : Int64.minValue.toInt ≤ i.toInt := Int64.le_iff_toInt_le.mp (Int64.minValue_le i)
+    have hadd : (i + 1).toInt = i.toInt + 1 := by
+      rw [Int64.toInt_add]
+      have : (1 : Int64).toInt = 1 := by decide
+      rw [this]
+      apply Int.bmod_eq_of_le
+      · have : Int64.minValue.toInt = -(2^63) := by decide
+        omega
+      · have : Int64.maxValue.toInt = 2^63 - 1 := by decide
+        omega
+    have h2 : ¬ (i + 1).toInt < n.toInt := fun hh => hn (Int64.lt_iff_toInt_lt.mpr hh)
+    omega
+  | @next fuel k i σ σ2 σ' _ hn _ ih =>
+    have h1 : i.toInt < n.toInt := Int64.lt_iff_toInt_lt.mp hlt
+    have hmax : n.toInt ≤ Int64.maxValue.toInt := Int64.le_iff_toInt_le.mp (Int64.le_maxValue n)
+    have hmin : Int64.minValue.toInt ≤ i.toInt := Int64.le_iff_toInt_le.mp (Int64.minValue_le i)
+    have hadd : (i + 1).toInt = i.toInt + 1 := by
+      rw [Int64.toInt_add]
+      have : (1 : Int64).toInt = 1 := by decide
+      rw [this]
+      apply Int.bmod_eq_of_le
+      · have : Int64.minValue.toInt = -(2^63) := by decide
+        omega
+      · have : Int64.maxValue.toInt = 2^63 - 1 := by decide
+        omega
+    have := ih hn
+    push_cast
+    omega
 
 end Dtr
